@@ -821,7 +821,10 @@ spifconf_open_file(spif_charptr_t name)
      * whole file, so we don't do that here. */
     fp = fopen((char *) name, "rt");
     REQUIRE_RVAL(fp != NULL, NULL);
-    fgets((char *) buff, 256, fp);
+    if (!fgets((char *) buff, 256, fp)) {
+        /* Empty file:  nothing was stored in buff. */
+        *buff = 0;
+    }
     ver_str = spif_str_new_from_ptr(buff);
 
     /* Check for magic string. */
